@@ -690,6 +690,38 @@ void PostOp(const void *loc, int op, std::memory_order mo, uint64_t before, uint
   }
 }
 
+// weak_ptr operations of the library on shared state: scheduling point before, event after
+void PrePlain(const void *, int, const char *file, unsigned line) noexcept
+{
+  using namespace vrt;
+  int me = tl_self;
+  if (me <= 0 || !g_in_child) return;
+  g_t[me].file = file;
+  g_t[me].line = line;
+  YieldToController(me);
+}
+
+void PostPlain(const void *obj, int kind, int result) noexcept
+{
+  using namespace vrt;
+  int me = tl_self;
+  if (me <= 0 || !g_in_child) return;
+  static const char *const kName[] = {"expired", "lock", "assign", "reset"};
+  char name[48] = "-", cls[16] = "-";
+  LocDesc(obj, name, sizeof(name), cls, sizeof(cls));
+  Log("{\"e\":\"wp\",\"t\":%d,\"k\":\"%s\",\"obj\":\"%s\",\"r\":%d,\"site\":\"%s:%u\"}", me, kName[kind & 3], name, result,
+      Base(g_t[me].file), g_t[me].line);
+  TCtx &t = g_t[me];
+  if (kind >= 2) {
+    ++g_gw;
+    t.mark_gw = g_gw;
+    t.spin = 0;
+    t.ro_run = 0;
+    t.ro_gw = g_gw;
+  }
+  if (t.body_done) YieldToController(me);
+}
+
 void SpinHint(int) noexcept
 {
   using namespace vrt;
